@@ -48,7 +48,9 @@ type host struct {
 
 func ptr[T any](v T) *T { return &v }
 
-func str(t *rapid.T) string { return []string{"", "a", "hello", "extension-value"}[rapid.IntRange(0, 3).Draw(t, "s")] }
+func str(t *rapid.T) string {
+	return []string{"", "a", "hello", "extension-value"}[rapid.IntRange(0, 3).Draw(t, "s")]
+}
 
 // dig renders an extension value as returned by any runtime.
 func dig(v any) string {
